@@ -9,7 +9,7 @@ import ast
 from .facts import (BIND_ALIASES, COUNTMIN, SKETCH_CLASSES, array_alloc, const_int, facts_of, scalar_ctor)
 from .flow import Arr, ArrSlice, Bytes, Num, Opaque, Tup, cond_atoms, show_cond
 from .lin import Lin, show_lin
-from .model import AnalysisError, Ty, self_attr, unparse, walk_no_nested
+from .model import AnalysisError, Ty, dotted, self_attr, unparse, walk_no_nested
 from .report import FAIL, OK, UNDECIDED
 
 COUNTER_ATTRS = {"cms", "lhh_count"}      # integer counter tables (wrap would corrupt a count)
@@ -1243,3 +1243,68 @@ def rule_no_skip(ctx, kernels, rule="no-skip"):
         if early:
             agg(ctx, rule, k, early[0].node, "%s: early return" % k.name,
                 "an add is cut short only when nothing has to change (saturated key / no-op log step / zero multiplicity)", res)
+
+
+# ---------------------------------------------------------------------------
+# findbase-post: the log base is accepted only if it satisfies its defining equation
+# ---------------------------------------------------------------------------
+
+def rule_findbase_post(ctx):
+    """`_find_base` (called by the log constructors with (max_count, num_reserved, ceiling)) returns a base only after checking
+    the residual of  (base**K - 1)/(base - 1) == max_count - num_reserved  and raising ValueError otherwise: then every
+    accepted configuration decodes its ceiling to max_count by construction (up to the checked tolerance)."""
+    F = facts_of(ctx)
+    fb = None
+    for cls in F.classes(COUNTMIN[1:]):
+        for d in F.attr_defs(cls):
+            if d.attr == "base" and isinstance(d.value, ast.Call) and isinstance(d.value.func, ast.Name):
+                fb = ctx.model.lookup_func(cls.module, d.value.func.id) or fb
+    if fb is None:
+        raise AnalysisError("log constructors do not obtain self.base from a package function")
+    ctx.analysed_funcs.add(fb.key)
+    from .rules_hll import nf, parse_nf
+    # residual function: the helper whose return has the normal form of  base**K - M*base + (M - 1)
+    resid_funcs = set()
+    for c in F.calls_from(fb):
+        r = [n for n in walk_no_nested(c.callee.node) if isinstance(n, ast.Return)]
+        if len(r) == 1 and len(c.callee.params) == 4:
+            b_, mc_, nr_, um_ = c.callee.params
+            t = nf(r[0].value)
+            for n in walk_no_nested(c.callee.node):
+                if isinstance(n, ast.Assign) and isinstance(n.targets[0], ast.Name) and nf(n.value) == parse_nf("%s - %s" % (mc_, nr_)):
+                    m_ = n.targets[0].id
+                    if t == parse_nf("%s ** (%s - %s) - %s * %s + (%s - 1.0)" % (b_, um_, nr_, m_, b_, m_)):
+                        resid_funcs.add(c.callee.name)
+    rets = [n for n in walk_no_nested(fb.node) if isinstance(n, ast.Return)]
+    guards = []
+    for n in fb.body():
+        if isinstance(n, ast.If) and any(isinstance(s, ast.Raise) for s in n.body):
+            exc = [s for s in n.body if isinstance(s, ast.Raise)][0].exc
+            en = dotted(exc.func) if isinstance(exc, ast.Call) else dotted(exc)
+            t = n.test
+            # abs(<residual>) > tol   (either orientation)
+            if isinstance(t, ast.Compare) and len(t.ops) == 1 and isinstance(t.ops[0], (ast.Gt, ast.GtE, ast.Lt, ast.LtE)):
+                sides = [t.left, t.comparators[0]]
+                big = sides[0] if isinstance(t.ops[0], (ast.Gt, ast.GtE)) else sides[1]
+                if isinstance(big, ast.Call) and dotted(big.func) in ("abs", "np.abs", "np.fabs", "math.fabs") and big.args:
+                    inner = big.args[0]
+                    names = {x.id for x in ast.walk(inner) if isinstance(x, ast.Name)}
+                    retname = rets[-1].value.id if rets and isinstance(rets[-1].value, ast.Name) else None
+                    is_resid = isinstance(inner, ast.Call) and dotted(inner.func) in resid_funcs and len(inner.args) == 4 \
+                        and retname is not None and [unparse(a) for a in inner.args] == [retname] + fb.params
+                    if is_resid and en == "ValueError":
+                        guards.append(n)
+    last_ret = rets[-1] if rets else None
+    okk = bool(guards) and last_ret is not None and all(g.end_lineno < last_ret.lineno for g in guards) and len(rets) == 1
+    ctx.ob("findbase-post", fb, guards[0] if guards else (last_ret or fb.node), "%s: residual check before `return base`" % fb.name,
+           "a base is returned only if |f(base)| is within tolerance of the defining equation, otherwise ValueError: an accepted log "
+           "configuration decodes its ceiling to max_count", okk,
+           "" if okk else "the base found by the fixed number of Newton steps is returned unchecked: for num_reserved near the counter maximum "
+                          "the iteration does not converge and the ceiling decodes to a value far from max_count without any error")
+    # the constructors pass (max_count, num_reserved, ceiling) and keep the result
+    for cls in F.classes(COUNTMIN[1:]):
+        for d in F.attr_defs(cls):
+            if d.attr == "base":
+                okk = isinstance(d.value, ast.Call) and [unparse(a) for a in d.value.args] == ["self.max_count", "self.num_reserved", "self.uint_maxval"]
+                ctx.ob("findbase-post", F.ctor(cls), d.stmt, "%s: self.base = %s" % (cls.name, unparse(d.value, 70)),
+                       "the base is solved for this sketch's own (max_count, num_reserved, ceiling)", okk)
